@@ -96,6 +96,21 @@ fn conv_oracle(c: &Conv) -> Verdict {
     ensure!(count(dits) == want, "to_duration_in_time_scale gives {}, want {}", count(dits), want);
     let built = lib!(constructor(mk(c.c), c.a));
     ensure!(built.time_scale == SCALES[c.a] && count(built.duration) == c.c, "from_*_duration constructor wrong for {}", SCALE_NAMES[c.a]);
+    // nanosecond counters of the GNSS scales: the same count when it is in [0, one century), an error otherwise
+    let ctr = match c.b {
+        S_GPST => Some(lib!(e.to_gpst_nanoseconds())),
+        S_QZSST => Some(lib!(e.to_qzsst_nanoseconds())),
+        S_GST => Some(lib!(e.to_gst_nanoseconds())),
+        S_BDT => Some(lib!(e.to_bdt_nanoseconds())),
+        _ => None,
+    };
+    if let Some(r) = ctr {
+        if want >= 0 && want < NPC {
+            ensure!(matches!(r, Ok(v) if v as i128 == want), "to_*_nanoseconds for {} gives {:?}, want Ok({})", SCALE_NAMES[c.b], r, want);
+        } else {
+            ensure!(r.is_err(), "to_*_nanoseconds for {} gives {:?} for count {} (negative or beyond one century), want an error", SCALE_NAMES[c.b], r, want);
+        }
+    }
     if c.b == S_TAI {
         let j = lib!(e.to_duration_since_j1900());
         ensure!(count(j) == want, "to_duration_since_j1900 {} want {}", count(j), want);
